@@ -81,6 +81,11 @@ def behav (name : String) (v : ObsVal) : J :=
   | "allow_partial" => .obj [("partial_rejected", .bool (!isT))]
   | "track_origin" => .obj [("clone_has_origin", .bool isT)]
   | "auto_call_functors" => .obj [("called", .bool isT)]
+  | "detour" | "apply_wrappers" =>
+    -- object creation follows the thread's own mapping (justified by `C17_construct_follows_mapping`)
+    match v with
+    | .frame f => .obj [("new", .obj (probeClasses.map fun c => (c, .str (mappingDest f c))))]
+    | _ => .null
   | "dynamic_evaluate" =>
     .obj [("oneof", match v with | .atom (.str f) => .str f | _ => .str "hyper")]
   | _ => .null
